@@ -160,7 +160,10 @@ CLAIMED = {
              "dictionary; local variables compile to the same values in any dependency-respecting order; and (InputsOrderFacts, "
              "go_sim, any carrier whose expression step reads its dictionary through lookups - proved for the compile model and the "
              "denotation) two listings of the same inputs dictionary compile a routine to the same tree, all children identically. "
-             "Partial: independence from the choice among topological processing orders and order-insensitivity of "
+             "Children (SiblingOrderFacts, compile_children_swap / go_children_swap): two neighbouring children of the processing order "
+             "that are not wired to each other and feed no common port can be compiled in either order - the same two compiled "
+             "children, the same later children, an equivalent parameter map; any two topological orders are connected by such swaps. "
+             "Partial: the composition of swaps into arbitrary topological orders, the parent's own values after its children, independence from the choice among topological processing orders and order-insensitivity of "
              "the preprocessing stages are exercised by the hier-permute stream (all list-valued fields permuted at every level; "
              "thorough: all child permutations up to 4 children) on the real code.",
         design_ref="DESIGN.md section 5 C09",
